@@ -89,6 +89,14 @@ Theorem C04_nonfinal_size_err : forall devices m P (pwb_decode : list N -> res P
 Proof. exact nonfinal_size_err. Qed.
 Print Assumptions C04_nonfinal_size_err.
 
+(* the fault list of the property text is complete: a set is well formed (hence, by C04_reasm_ok_iff, reassembled
+   whenever its concatenated payload decodes) exactly when it is non-empty and shows none of the listed faults *)
+Theorem C04_wf_set_iff_no_fault : forall cs,
+  wf_set cs <-> cs <> [] /\ ~ F_board cs /\ ~ F_chip cs /\ ~ F_missing cs /\ ~ F_dup cs /\
+                ~ F_eom_absent cs /\ ~ F_eom_early cs /\ ~ F_size cs.
+Proof. exact wf_set_iff_no_fault. Qed.
+Print Assumptions C04_wf_set_iff_no_fault.
+
 (* the hypotheses on the sort are satisfiable: the insertion sort used by the executable model *)
 Theorem C04_isort_admissible : admissible_sort isort_by_id.
 Proof. exact isort_admissible. Qed.
